@@ -52,6 +52,10 @@ TERMINATORS = ['quit', 'quit_loop_world', 'quit_loop_default', 'harness',
                # handle's load quits (raise SwitchWorld(h) from the frame,
                # or loop.switch(h) called in the frame)
                'switch_load_quits', 'soft_switch_load_quits',
+               # ... the target is a world FILE whose $res{} argument is a
+               # resource whose load quits (the Quit travels through the
+               # file transformers)
+               'switch_file_load_quits',
                # ... the same with clear_current: the handle that keeps
                # running must not have been emptied
                'switch_load_quits_cc',
@@ -237,6 +241,23 @@ def run_case(case):
         fault['kind'] = kind
         if kind == 'switch_load_quits':
             raise desper.SwitchWorld(QuitHandle())
+        if kind == 'switch_file_load_quits':
+            import json
+            import os
+            import tempfile
+            import vf_fixtures
+            vf_fixtures.build()
+            state['tmp'] = tempfile.TemporaryDirectory(prefix='vf-c14-')
+            path = os.path.join(state['tmp'].name, 'level.json')
+            with open(path, 'w') as fout:
+                json.dump({'entities': [{'components': [
+                    {'type': 'vf_fixtures.RC0', 'args': ['$res{q}']}]}]},
+                    fout)
+            rmap = desper.ResourceMap()
+            rmap['q'] = QuitHandle()
+            rmap['level'] = desper.WorldFromFileHandle(path)
+            state['rmap'] = rmap
+            raise desper.SwitchWorld(rmap.get('level'))
         if kind == 'switch_load_quits_cc':
             state['clears_before'] = sum(h.clears for h in handles)
             raise desper.SwitchWorld(QuitHandle(), clear_current=True)
